@@ -579,7 +579,11 @@ func (ck *Check) reportIsolated(v viol, seed uint64, tier string) string {
 	if tape == nil {
 		tape = RawTape(Mix(seed, ck.Prop+"/"+b.Name, uint64(v.run)), 1<<15)
 	}
+	shrinkDeadline := time.Now().Add(40 * time.Second)
 	fails := func(vals []uint32) bool {
+		if time.Now().After(shrinkDeadline) {
+			return false // stop minimising: report what we have
+		}
 		out, _, ok := ck.runTapeIsolated(b, seed, tier, v.run, vals, false)
 		return ok && out != nil && out.Class == v.out.Class
 	}
@@ -589,6 +593,7 @@ func (ck *Check) reportIsolated(v viol, seed uint64, tier string) string {
 	}
 	small := tape
 	reproduced := fails(tape)
+	shrinkDeadline = time.Now().Add(40 * time.Second)
 	if reproduced {
 		small = Shrink(tape, fails, max)
 	} else {
